@@ -109,6 +109,9 @@ def run(res, tier, seed, replay=None):
             if not got:
                 continue
             per.append(diffrun.compare(res, corr, driver, got[1], got[2]))
+            if tier == "thorough" and not replay and got[2] in ("default", "c32"):
+                # lengths of 2^32 bytes and more: size_t parameters must not be processed modulo 2^32 (harness/x_huge.c)
+                res.cov.setdefault("huge_lengths", {})[got[2]] = common.run_huge(res, got[0], got[2], ["aead128a"])
     res.cov.update({
         "evaluations": sum(p["sessions"] for p in per),
         "distinct_nontrivial": max([p["nontrivial"] for p in per] or [0]),
